@@ -888,6 +888,19 @@ class _FunctionPass:
                         if other != t0.comparators[0].value:
                             e1[f"#notfmt:{t0.left.value.id}:{other}"] = \
                                 frozenset({"y"})
+            # X is None / X is not None: on the branch where X is None it
+            # designates no storage at all (a later 'X = {} if X is None
+            # else X' or X.update(...) cannot reach the caller's object
+            # through that path)
+            if isinstance(t0, ast.Compare) and len(t0.ops) == 1 and \
+                    isinstance(t0.left, ast.Name) and isinstance(
+                        t0.comparators[0], ast.Constant) and \
+                    t0.comparators[0].value is None and \
+                    t0.left.id in env:
+                if isinstance(t0.ops[0], ast.IsNot):
+                    e2[t0.left.id] = FRESH
+                elif isinstance(t0.ops[0], ast.Is):
+                    e1[t0.left.id] = FRESH
             # not isspmatrix_csr(X) / isspmatrix_csr(X)
             neg, t1 = False, t0
             if isinstance(t1, ast.UnaryOp) and isinstance(t1.op, ast.Not):
